@@ -37,6 +37,9 @@ type Cfg struct {
 	CBAddrs  []string `json:"cb_addrs"`
 	IPv6     bool     `json:"ipv6"`
 	OneShell bool     `json:"one_shell"`
+	// OchCap is the capacity of the operator output queue (0 = 1024, the
+	// program's own; negative = unbuffered).
+	OchCap int `json:"och_cap,omitempty"`
 }
 
 // Line is one operator-channel line with its arrival order.
@@ -73,6 +76,21 @@ type Srv struct {
 	BrkErr   chan error
 	termDone chan struct{}
 	stopped  bool
+	stallMu  sync.Mutex
+	stallC   *sync.Cond
+	stalled  bool
+}
+
+// Stall makes the operator terminal stop taking lines (after at most the one
+// it is about to take); Resume lets it go on.
+func (s *Srv) Stall() { s.stallMu.Lock(); s.stalled = true; s.stallMu.Unlock() }
+
+// Resume ends a Stall.
+func (s *Srv) Resume() {
+	s.stallMu.Lock()
+	s.stalled = false
+	s.stallC.Broadcast()
+	s.stallMu.Unlock()
 }
 
 type capH struct {
@@ -119,8 +137,15 @@ func (h *capH) Handle(_ context.Context, r slog.Record) error {
 
 // Start creates broker + server and starts them.
 func Start(cfg Cfg) (*Srv, error) {
-	s := &Srv{Cfg: cfg, Ich: make(chan string, 1024), och: make(chan opshell.CLine, 1024), SrvErr: make(chan error, 1), BrkErr: make(chan error, 1), termDone: make(chan struct{})}
+	ochCap := 1024
+	if cfg.OchCap > 0 {
+		ochCap = cfg.OchCap
+	} else if cfg.OchCap < 0 {
+		ochCap = 0
+	}
+	s := &Srv{Cfg: cfg, Ich: make(chan string, 1024), och: make(chan opshell.CLine, ochCap), SrvErr: make(chan error, 1), BrkErr: make(chan error, 1), termDone: make(chan struct{})}
 	s.cond = sync.NewCond(&s.mu)
+	s.stallC = sync.NewCond(&s.stallMu)
 	sl := slog.New(&capH{s: s})
 	b, err := iobroker.New(s.Ich, s.och)
 	if err != nil {
@@ -129,7 +154,16 @@ func Start(cfg Cfg) (*Srv, error) {
 	s.B = b
 	go func() {
 		defer close(s.termDone)
-		for cl := range s.och {
+		for {
+			s.stallMu.Lock()
+			for s.stalled {
+				s.stallC.Wait()
+			}
+			s.stallMu.Unlock()
+			cl, ok := <-s.och
+			if !ok {
+				return
+			}
 			s.mu.Lock()
 			s.lines = append(s.lines, Line{Seq: s.seq.Add(1), CL: cl, When: time.Now()})
 			s.cond.Broadcast()
@@ -178,6 +212,7 @@ func (s *Srv) Stop() {
 		return
 	}
 	s.stopped = true
+	s.Resume()
 	s.cancel()
 	select {
 	case <-s.SrvErr:
